@@ -817,6 +817,34 @@ def oracle_c13(case, obs, res):
     docs_at = {}
     for name, doc, hi in obs.docs:
         docs_at.setdefault(hi, []).append((doc_name(name), doc))
+    # the plan's own code sits inside its preprocessors: what it receives at a yield must be what came back for that
+    # very message at the outside of the plan, and a message deleted by a preprocessor is resumed with None
+    tap_of = {id(y["msg"]): y for y in obs.plog.yields}
+    for rec in getattr(obs.plog, "inner", []):
+        if "resp" not in rec:
+            continue
+        m = rec["msg"]
+        if rec.get("deleted"):
+            if "inner:deleted" not in res.classes:
+                res.classes.append("inner:deleted")
+            res.nontrivial = True
+            if id(m) in hooks_of:
+                res.fail("deleted_message_executed", f"{m.command} was to be removed by a preprocessor but reached the engine", **F(cmd=m.command))
+            elif rec["resp"] is not None:
+                res.fail(
+                    "deleted_message_got_foreign_response",
+                    f"{m.command}{m.args!r} is removed by a preprocessor, so nothing answers it, but its yield received {rec['resp']!r}",
+                    **F(cmd=m.command),
+                )
+        elif id(m) in tap_of and "resp" in tap_of[id(m)]:
+            if "inner:passed_through" not in res.classes:
+                res.classes.append("inner:passed_through")
+            if rec["resp"] is not tap_of[id(m)]["resp"]:
+                res.fail(
+                    "inner_response_differs",
+                    f"{m.command}: the plan's yield received {rec['resp']!r} but {tap_of[id(m)]['resp']!r} came back for that message",
+                    **F(cmd=m.command),
+                )
     rewound_between = False
     for y in obs.plog.yields:
         if "resp" not in y:
